@@ -203,7 +203,7 @@ def make_object(ns, model, name, live):
         kw["hourly_usage_journey_starts"] = hourly(ns, o["starts"], o["start"])
     elif cls in EXTRA_MAKERS:
         return EXTRA_MAKERS[cls](ns, model, name, live, kw)
-    return ns.classes[cls](name, **kw)
+    return ns.classes[cls](o.get("display", name), **kw)
 
 
 EXTRA_MAKERS = {}
